@@ -6,7 +6,26 @@ from gen import ilgen
 
 
 def strip_meta(f):
-    return {"address": f["address"], "cfg": f["cfg"]}
+    if "_send" in f:
+        return f["_send"]
+    out = {"address": f["address"], "cfg": f["cfg"]}
+    if "remove" in f:
+        out["remove"] = f["remove"]
+    return out
+
+
+def view(f):
+    """If the function carries post-construction edits ("remove"), return the function as falcon
+    sees it (emitted back, with non-dense instruction indices); commands keep receiving the recipe."""
+    if "remove" not in f:
+        return f
+    r = drv.call({"cmd": "roundtrip", "function": strip_meta(f)})
+    if "fatal" in r:
+        raise RuntimeError(r["fatal"])
+    g = r["function"]
+    g["meta"] = f.get("meta")
+    g["_send"] = strip_meta(f)
+    return g
 
 
 def call_fn(cmd, f, **kw):
